@@ -260,6 +260,9 @@ def execute_case(spec: dict, *, chooser: Optional[Chooser] = None, gated: bool =
         else:
             backend = SpyBackend(backend_kind, ctl)
         context = {**base_ctx, 'nonce': RUN_NONCE}
+        if lab_spec.get('no_nonce'):
+            # exactly the generated context, possibly empty: nothing the harness adds keeps it non-empty
+            context = dict(base_ctx)
         obs.context = dict(context)
         if storage_wrapper is not None and not storage_null:
             storage = storage_wrapper(storage)
@@ -271,8 +274,8 @@ def execute_case(spec: dict, *, chooser: Optional[Chooser] = None, gated: bool =
             ctx_obj.update(context)
         else:
             lab = labtech.Lab(storage=storage, continue_on_failure=lab_spec.get('continue_on_failure', True),
-                              max_workers=lab_spec.get('max_workers'), context=context, runner_backend=backend,
-                              notebook=False)
+                              max_workers=lab_spec.get('max_workers'), context=(None if (not context and lab_spec.get('context_none')) else context),
+                              runner_backend=backend, notebook=False)
         if pre_hook is not None:
             pre_hook(lab, built, ctl)
         displays = lab_spec.get('displays', False)
